@@ -6,6 +6,8 @@ VERIF = os.path.dirname(os.path.abspath(__file__))
 reg = json.load(open(os.path.join(VERIF, 'MANIFEST.json')))
 claimed = {c['property_id'] for c in reg['checks']}
 only = sys.argv[1:]
+import atexit
+atexit.register(lambda: subprocess.run(['git', '-C', '/repo', 'checkout', '--', '.']))
 rows = []
 for d in sorted(glob.glob(os.path.join(VERIF, 'seeded', '*'))):
     sid = os.path.basename(d)
@@ -21,14 +23,22 @@ for d in sorted(glob.glob(os.path.join(VERIF, 'seeded', '*'))):
     if r.returncode != 0:
         rows.append((sid, 'PATCH DOES NOT APPLY'))
         continue
+    import signal, tempfile
+    outf = tempfile.TemporaryFile(mode='w+')
+    proc = subprocess.Popen([os.path.join(VERIF, 'check'), pid, '--tier', 'quick', '--no-evidence'], stdout=outf, stderr=subprocess.DEVNULL,
+                            start_new_session=True)
     try:
-        p = subprocess.run([os.path.join(VERIF, 'check'), pid, '--tier', 'quick', '--no-evidence'], capture_output=True, text=True, timeout=1800)
-        out = p.stdout
-        rc = p.returncode
+        rc = proc.wait(timeout=int(os.environ.get('SEED_TIMEOUT', '900')))
     except subprocess.TimeoutExpired:
-        out, rc = '', 124
+        rc = 124
     finally:
+        try:
+            os.killpg(proc.pid, signal.SIGKILL)      # the check's worker pool as well
+        except ProcessLookupError:
+            pass
         subprocess.run(['git', '-C', '/repo', 'checkout', '--', '.'], check=True)
+    outf.seek(0)
+    out = outf.read()
     vio = [l for l in out.splitlines() if l.startswith('  obligation=')]
     first = vio[0].strip()[:400] if vio else ''
     inconc = [l for l in out.splitlines() if l.startswith('INCONCLUSIVE')]
@@ -38,5 +48,6 @@ for d in sorted(glob.glob(os.path.join(VERIF, 'seeded', '*'))):
                            'repo_head': subprocess.run(['git', '-C', '/repo', 'log', '--format=%h', '-1'], capture_output=True, text=True).stdout.strip()}
     json.dump(meta, open(os.path.join(d, 'meta.json'), 'w'), indent=1)
     rows.append((sid, verdict + ' | ' + first[:150]))
+    print('%-8s %s' % rows[-1], flush=True)
 for r in rows:
     print('%-8s %s' % r)
